@@ -18,7 +18,7 @@ ASSUMPTIONS = [
     "implemented content rules are recognised behaviourally: validating a node governed by the rule must not report "
     "UNKNOWN_CONTENT_RULE / UnknownContentRuleError",
 ]
-REQUIRED = ["elements_resolved", "rules_parsed", "child_names_checked", "minimal_trees_accepted", "content_rules_exercised"]
+REQUIRED = ["minimal_trees_accepted_after_history", "minimal_trees_accepted_after_repair", "elements_resolved", "rules_parsed", "child_names_checked", "minimal_trees_accepted", "content_rules_exercised"]
 EXHAUSTIVE = {"quick": True, "thorough": True}
 
 
@@ -144,6 +144,52 @@ def judge_tree(ctx, t, what, wit, counter, key):
         emlkit.discard(t)
 
 
+def history_phase(ctx, gen, elements):
+    """'At least one tree passes' must not depend on what was validated before: (1) interleaved with a long run of failing
+    fail-fast validations, minimal trees keep passing; (2) a minimal tree whose children were reversed in place when it was first
+    validated passes once the order is restored in place - same node objects, same child count throughout."""
+    from vlib import anytrees
+    buildable = [e for e in elements if gen.buildable(e)]
+    for i in range(260):
+        t = anytrees.freeform(ctx.rng, gen, ctx.rng.choice([2, 5, 12]), p_unknown=0.3)
+        try:
+            mvalidate.tree(t)
+        except Exception:
+            ctx.count("history_failing_validations")
+        emlkit.discard(t)
+        e = buildable[i % len(buildable)]
+        judge_tree(ctx, gen.minimal_tree(e), f"minimal tree of {e} after {i + 1} failing validations", {"element": e, "kind": "minimal-after-history"},
+                   "minimal_trees_accepted_after_history", "no-valid-tree-after-a-history-of-failing-validations")
+    for e in buildable:
+        t = gen.minimal_tree(e)
+        wide = [n for n in treegen.all_nodes(t) if len(n.children) >= 2 and len({c.name for c in n.children}) >= 2]
+        if not wide:
+            emlkit.discard(t)
+            continue
+        n = wide[0]
+        try:
+            kids = list(n.children)
+            for c in kids:
+                n.remove_child(c)
+            for c in reversed(kids):
+                n.add_child(c)
+            for fn in (mvalidate.node, mvalidate.tree):
+                try:
+                    fn(n if fn is mvalidate.node else t)
+                except emlkit.mexc.MetapypeRuleError:
+                    ctx.count("broken_in_place_rejected")
+            for c in list(n.children):
+                n.remove_child(c)
+            for c in kids:
+                n.add_child(c)
+        except Exception as ex:
+            ctx.violation(f"crash:{type(ex).__name__}@{emlkit.raise_site(ex)}", f"break/repair of the minimal tree of {e}: {ex!r}", {"element": e})
+            emlkit.discard(t)
+            continue
+        judge_tree(ctx, t, f"minimal tree of {e}, first validated with reversed children, then repaired in place",
+                   {"element": e, "kind": "minimal-repaired"}, "minimal_trees_accepted_after_repair", "no-valid-tree-after-in-place-repair")
+
+
 def run(ctx, params):
     part, parts = params["part"], params["parts"]
     table = emlkit.rules_table()
@@ -182,6 +228,7 @@ def run(ctx, params):
         ctx.cover["reachable_rules"] = len(reachable)
         for e in elements:
             check_element(ctx, gen, e)
+        history_phase(ctx, gen, elements)
         ctx.sample({"element": "eml", "minimal_tree": snapshot.to_plain(gen.minimal_tree("eml")) if gen.buildable("eml") else None})
     if ctx.tier == "thorough":
         for i, e in enumerate(elements):
